@@ -14,7 +14,7 @@ RULE = ("cases = operation histories (subscribe / unsubscribe one / unsubscribe 
         "remove a node / add_sdo on a node object (registered or not; new, shared and colliding tx ids) / a second "
         "associate_network of an attached node / connect - disconnect - connect of the bus / notify / "
         "listener frame incl. error+remote+extended / scanner reset) over a pool of ~14 CAN ids "
-        "(node COB-IDs of 2-3 node ids in 1..127, extra SDO tx ids, 0, the LSS id, arbitrary 11- and 29-bit ids), 4 user callbacks and "
+        "(node COB-IDs of 2-3 node ids in 1..127, extra SDO tx ids, 0, the LSS id, arbitrary 11- and 29-bit ids), 6 user callbacks (functions, bound methods, falsy-while-empty callables) and "
         "4-6 node objects (local and remote mixed, several objects per node id), 'clean' histories and 'dirty' ones that "
         "tamper with node subscriptions; compared step by step (delivery log of every callback, exception kind) plus the "
         "final subscribers / nodes / scanner state; scanner id lists (all 2048 11-bit ids, 29-bit ids, ids around every "
